@@ -5,20 +5,33 @@ import numpy as np
 from .. import core, gen
 
 ID = 'C14'
-FOUNDATIONS = ['harness.foundation.pybody']   # locModel/regModel/closeHoles on `neighbours` are tied to the current bodies of the morph.py wrappers
+FOUNDATIONS = ['harness.foundation.pybody', 'harness.foundation.cscalar']   # see each foundation module's docstring
 LEVEL = 'proof'
 RULE = ('corpus; exhaustive binary scope (close_holes: every binary image of every shape up to 3x4 with the cross and the '
         'box; hitmiss: 3x3 / 1x3 / 3x1 templates over {0,1,2} against every binary image up to 3x4 - thorough all 19683+27+27 '
         'templates, quick a seeded slice of the 3x3 ones); random 1-3 D x 9 integer dtypes + float32/float64 (palettes of 2-4 '
         'values: ties and plateaus, dtype limits, infinities) x 7 layouts x cross/box (and some irregular) neighbourhoods; a few 18-40 px images (long floods, many skipped rows). '
+        'Round 4: hitmiss in 1-3 D with template sides 1-5 (even sides; templates larger than the image on every subset of the axes) '
+        'and exhaustive 2x2 / 1x2 / 2x1 / 1-D / 3-D blocks judged against the proved closed form; extrema with the centre entry of Bc set '
+        'and cleared (both must agree), Bc entries other than 0/1, all-ones boxes with even sides (definition), irregular neighbourhoods '
+        '(proved clamped specification); plateau images (plateaus on the border / in corners, tied plateaus, +-inf); close_holes with every '
+        'Bc the wrapper accepts (None, 0-4 and 8, arrays of any shape / dtype / layout) and non-0/1 foreground values. '
+        'int64/uint64 extrema: 40-50 % of the palettes consist of values that differ only beyond double precision (2^53..2^53+2, '
+        '2^63-1.., 2^64-1.., -2^63.., -2^53-1..; tag magnitude=>=2^53). '
+        'Size-threshold stream (tag size=threshold; quick 4, thorough 24 cases): plateaus / background regions / holes / rows whose '
+        'pixel count crosses 2^8, 2^15, 2^16 (+-1), judged by the Lean model of the kernels (linear; proved equal to the definition for '
+        'cross/box: C14_regional_eq_spec_cross_box_disk, C14_close_holes_eq_spec; the quadratic fixed-point specifications are left out there). '
         'Non-trivial = output neither all-true nor all-false; distinct = distinct protocol line + layout.')
 ASSUMPTIONS = ['no NaN (an order is taken); floats enter the Lean model through the order isomorphism '
                'x -> sign(x)*bits(|x|) onto integers (the kernels only compare values)',
                'locmax/locmin/regmax/regmin are compared with the definition for cross/box (symmetric, star-shaped) '
-               'neighbourhoods; for irregular neighbourhoods only model = implementation is checked',
+               'neighbourhoods; locmax/locmin also for every star-shaped neighbourhood (boxes with even sides: C14_locmax_eq_spec_any_box); '
+               'for irregular neighbourhoods locmax/locmin are compared with the proved clamped specification '
+               '(C14_locmax_clamped_spec), regmax/regmin with the model only',
                'close_holes: 2-D images (the wrapper admits nothing else), symmetric neighbourhoods for the definition',
                'hitmiss: template and image have the same rank, template entries in {0,1,2}, image values in {0,1}; '
-               'the definition is compared for odd template sides (even sides: model = implementation only)',
+               'the definition is compared for odd template sides; even sides and templates larger than the image are compared '
+               'with the proved closed form of what the kernel evaluates (C14_hitmiss_even_closed_form: outside the statement)',
                'array sizes < 2^31']
 EXHAUSTIVE = {'thorough': True}
 TRUSTED = ['numpy (array construction, layout views)', 'the float -> integer order embedding in harness/props/c14.py']
@@ -47,8 +60,40 @@ def _mk(case):
     return A
 
 
-def _bc(case, dtype):
-    return np.array(case['bc'], dtype=object).astype(dtype).reshape(case['bshape'])
+def _bc(case, dtype, bc=None):
+    """the structuring element as the caller passes it: entries of `bc` (0 / non-zero; non-0/1 values allowed) in `dtype`,
+    optionally in another memory layout (`bclayout`)"""
+    B = np.array(case['bc'] if bc is None else bc, dtype=object).astype(dtype).reshape(case['bshape'])
+    lay = case.get('bclayout', 'C')
+    return gen.relayout(B, lay) if lay != 'C' else B
+
+
+def _centre_index(bshape):
+    i = 0
+    for s in bshape:
+        i = i * s + s // 2
+    return i
+
+
+def _big(case):
+    """size-threshold cases: the driver leaves the quadratic fixed-point specifications out (the linear model is the reference)"""
+    return ' big=1' if case.get('size') == 'threshold' else ''
+
+
+def _se_args(case, dtype):
+    """the Bc argument in the protocol of C01's model of `get_structuring_elem` (`arg=none | int | array`, `dt=` the dtype
+    the element is cast to: the image's, bool for close_holes; no `dt` for float images: non-zero stays non-zero)"""
+    arg = case.get('bcarg', 'array')
+    isf = np.dtype(dtype).kind == 'f'
+    dts = '' if isf else f" dt={gen.dt_name(dtype)}"
+    if arg == 'none':
+        return 'arg=none' + dts
+    if arg != 'array':
+        return f'arg=int v={int(arg)}' + dts
+    bc = case['bc']
+    if isf or any(isinstance(v, float) for v in bc):
+        bc = [1 if v else 0 for v in bc]
+    return f"arg=array bshape={gen.enc_shape(case['bshape'])} bc={gen.enc_arr([int(v) for v in bc])}" + dts
 
 
 def _line(case):
@@ -59,13 +104,11 @@ def _line(case):
     if op in LOC_OPS:
         data = [okey(v, dt) for v in _mk(case).ravel().tolist()]
         kind = 'loc' if op.startswith('loc') else 'reg'
-        bc = [1 if v else 0 for v in case['bc']]
-        return (f"c14 kind={kind} min={1 if op.endswith('min') else 0} shape={shape} data={gen.enc_arr(data)} "
-                f"bshape={bsh} bc={gen.enc_arr(bc)}")
+        return (f"c14 kind={kind} min={1 if op.endswith('min') else 0}{_big(case)} shape={shape} data={gen.enc_arr(data)} "
+                + _se_args(case, dt))
     if op == 'close_holes':
         data = [1 if v else 0 for v in case['data']]
-        bc = [1 if v else 0 for v in case['bc']]
-        return f"c14 kind=holes shape={shape} data={gen.enc_arr(data)} bshape={bsh} bc={gen.enc_arr(bc)}"
+        return f"c14 kind=holes{_big(case)} shape={shape} data={gen.enc_arr(data)} " + _se_args(case, 'bool')
     if op == 'hitmiss':
         return (f"c14 kind=hitmiss shape={shape} data={gen.enc_arr(case['data'])} bshape={bsh} "
                 f"bc={gen.enc_arr(case['bc'])}")
@@ -117,11 +160,16 @@ def _eval_single(cases):
         if 'error' in drv:
             raise core.Infra('driver: ' + drv['error'])
         model = _bools(drv['model'])
-        spec = _bools(drv['spec'])
-        cls = _contig_class(Al)
+        spec = _bools(drv['spec']) if drv.get('spec') else model    # big=1: the model (proved = definition for cross/box)
+        cls = _contig_class(Al) if case.get('size') != 'threshold' else 'threshold'
         regular = True
         if op in LOC_OPS:
-            Bc = _bc(case, A.dtype)
+            arg = case.get('bcarg', 'array')
+            if arg == 'array':
+                Bc = _bc(case, case.get('bcdtype', A.dtype))
+            else:
+                Bc = None if arg == 'none' else int(arg)
+            Bc0 = None if Bc is None or isinstance(Bc, int) else Bc.copy()
             if case.get('_hist'):
                 # the result is asked for in a caller's buffer that already holds marks (all True: a buffer reused from an
                 # earlier image): the extrema are what the definition says, not the union with what was there
@@ -132,15 +180,41 @@ def _eval_single(cases):
             else:
                 got = np.asarray(getattr(mh, op)(Al, Bc))
             g = [int(x) for x in got.ravel(order='C').tolist()]
+            if Bc0 is not None and not np.array_equal(Bc0, Bc):
+                # `_remove_centre` works on a copy: the caller's structuring element keeps its centre
+                f.append(dict(kind='model', key=f'{op}:bc-modified', detail=dict(before=Bc0.ravel().tolist(), after=Bc.ravel().tolist())))
             regular = drv['regular'] == '1'     # the proved-sound checkers starShapedB && symNbB of the Lean model
-            if regular != _symmetric_star(case):
+            if 'bcdtype' not in case and regular != _symmetric_star(case):
                 f.append(dict(kind='model', key='regular-check-disagrees', detail=dict(lean=regular)))
-            if regular and g != spec:
+            # locmax/locmin: the definition holds for every star-shaped neighbourhood (C14_locmax_eq_spec; boxes with an
+            # even side by C14_locmax_eq_spec_any_box), regmax/regmin need symmetry as well
+            use_spec = regular or (op.startswith('loc') and drv.get('star') == '1')
+            if use_spec and g != spec:
                 bad = [i for i, (a, b) in enumerate(zip(g, spec)) if a != b]
                 f.append(dict(kind='property', key=f'{op}:{cls}', detail=dict(pixels=bad[:8], got=g, spec=spec)))
             elif g != model:
                 bad = [i for i, (a, b) in enumerate(zip(g, model)) if a != b]
                 f.append(dict(kind='model', key=f'{op}-model:{cls}', detail=dict(pixels=bad[:8], got=g, model=model)))
+            if op.startswith('loc'):
+                # arbitrary neighbourhoods: the proved clamped specification (C14_locmax_clamped_spec)
+                cspec = _bools(drv['cspec'])
+                if g != cspec:
+                    bad = [i for i, (a, b) in enumerate(zip(g, cspec)) if a != b]
+                    f.append(dict(kind='model', key=f'{op}-clamped:{cls}', detail=dict(pixels=bad[:8], got=g, cspec=cspec)))
+            elif drv.get('fix') != '1':
+                # the executable specification did not reach its fixed point (impossible by C14_regspec_eq_regional: a driver sanity check)
+                f.append(dict(kind='model', key='regspec-not-fixed', detail={}))
+            # the centre entry of Bc is irrelevant (C14_remove_centre_irrelevant): set / cleared / another non-zero value
+            ci = _centre_index(case['bshape'])
+            for v in (0, 1, 3):
+                if case['bc'][ci] == v:
+                    continue
+                bc2 = list(case['bc']); bc2[ci] = v
+                got2 = np.asarray(getattr(mh, op)(Al, _bc(case, case.get('bcdtype', A.dtype), bc2)))
+                if not np.array_equal(got2, got):
+                    f.append(dict(kind='property' if use_spec else 'model', key=f'{op}:centre-dependent',
+                                  detail=dict(centre=v, got=g, other=[int(x) for x in got2.ravel().tolist()])))
+                    break
             if op.startswith('reg') and regular:
                 loc = np.asarray(getattr(mh, 'loc' + op[3:])(Al, Bc))
                 if np.any(got & ~loc):
@@ -149,8 +223,14 @@ def _eval_single(cases):
                 if got.dtype != np.bool_ or loc.dtype != np.bool_:
                     f.append(dict(kind='property', key=f'{op}:dtype', detail=dict(dtype=str(got.dtype))))
         elif op == 'close_holes':
-            Bc = _bc(case, bool)
+            arg = case.get('bcarg', 'array')
+            if arg == 'array':
+                Bc = _bc(case, case.get('bcdtype', 'bool'))
+            else:
+                Bc = None if arg == 'none' else int(arg)
             got = np.asarray(mh.close_holes(Al, Bc))
+            if got.dtype != np.bool_ or got.shape != Al.shape:
+                f.append(dict(kind='property', key='close_holes:dtype', detail=dict(dtype=str(got.dtype))))
             g = [int(x) for x in got.ravel(order='C').tolist()]
             regular = drv['regular'] == '1'     # symNbB of the Lean model (the theorem needs no more; the spec is undirected)
             if regular and g != spec:
@@ -159,22 +239,33 @@ def _eval_single(cases):
             elif g != model:
                 f.append(dict(kind='model', key=f'close_holes-model:{cls}', detail=dict(got=g, model=model)))
         else:  # hitmiss
-            Bc = np.array(case['bc'], dtype=object).astype(case.get('bcdtype', case['dtype'])).reshape(case['bshape'])
+            Bc = _bc(case, case.get('bcdtype', case['dtype']))
             got = np.asarray(mh.hitmiss(Al, Bc))
             g = [int(x) for x in got.ravel(order='C').tolist()]
             regular = all(b % 2 == 1 for b in case['bshape'])
+            closed = _bools(drv['closed'])
             if regular and g != spec:
                 bad = [i for i, (a, b) in enumerate(zip(g, spec)) if a != b]
                 f.append(dict(kind='property', key=f'hitmiss:{cls}', detail=dict(pixels=bad[:8], got=g, spec=spec)))
+            elif g != closed:
+                # every template shape: the proved closed form (C14_hitmiss_even_closed_form)
+                f.append(dict(kind='model', key=f'hitmiss-closed:{cls}', detail=dict(got=g, closed=closed)))
             elif g != model:
                 f.append(dict(kind='model', key=f'hitmiss-model:{cls}', detail=dict(got=g, model=model)))
+            if any(b > n or (b == n and b % 2 == 0) for b, n in zip(case['bshape'], case['shape'])) and any(g):
+                # C14_hitmiss_template_larger_is_false
+                f.append(dict(kind='model', key=f'hitmiss-larger-not-zero:{cls}', detail=dict(got=g)))
+            if drv.get('loopok') != '1':
+                # the transliterated `slack` loop and its closed form `hmEvaluated` disagree on this image / template shape
+                f.append(dict(kind='model', key='hitmiss-loop-vs-closed-form', detail=dict(shape=case['shape'], bshape=case['bshape'])))
             if drv['model'] != drv['modelrev']:
                 f.append(dict(kind='model', key='hitmiss-order-dependence', detail=dict(a=drv['model'], b=drv['modelrev'])))
         if not np.array_equal(before, Al):
             f.append(dict(kind='property', key=f'{op}:input-modified', detail={}))
         res.append(dict(findings=f, nontrivial=bool(0 < sum(g) < len(g)), sig=line + case.get('layout', 'C'),
                         tags=dict(op=op, dtype=case['dtype'], ndim=len(case['shape']), layout=case.get('layout', 'C'),
-                                  nbhd=('regular' if regular else 'irregular'), size=case.get('size', 'small'))))
+                                  nbhd=('regular' if regular else 'irregular'), size=case.get('size', 'small'),
+                                  cls=case.get('cls', '-'), magnitude=(_magnitude(case) if op in LOC_OPS else '-'))))
     return res
 
 
@@ -204,6 +295,14 @@ def _eval_block(case):
             raise core.Infra('driver: ' + drv['error'])
         model = _digits(drv['model'], n)
         spec = _digits(drv['spec'], n)
+        specwhich = 'property'
+        if op == 'hitmiss' and drv.get('loopok') != '1' and len(findings) < 6:
+            findings.append(dict(kind='model', key='hitmiss-loop-vs-closed-form', detail=dict(shape=list(shape), bshape=list(bshape)),
+                                 case=dict(op=op, dtype='uint8', shape=list(shape), data=[0] * n, bshape=list(bshape), bc=list(bc), layout='C')))
+        if op == 'hitmiss' and any(b % 2 == 0 for b in bshape):
+            # even template sides are outside the statement: the proved closed form takes the place of the definition
+            spec = _digits(drv['closed'], n)
+            specwhich = 'model'
         if op == 'hitmiss':
             Bc = np.array(bc, np.uint8).reshape(bshape)
             got = np.stack([mh.hitmiss(im, Bc) for im in imgs]).reshape(-1, n)
@@ -215,14 +314,15 @@ def _eval_block(case):
         nontriv += int(np.sum((got.sum(1) > 0) & (got.sum(1) < n)))
         bad = np.nonzero((got != spec).any(1))[0]
         badm = np.nonzero((got != model).any(1))[0]
-        for which, rows, ref in (('property', bad, spec), ('model', badm, model)):
+        for which, rows, ref in ((specwhich, bad, spec), ('model', badm, model)):
             if len(rows) and len(findings) < 6:
                 r = int(rows[0])
                 c = dict(op=op, dtype='uint8' if op == 'hitmiss' else 'bool', shape=list(shape),
                          data=[int(x) for x in imgs[r].ravel().tolist()], bshape=list(bshape), bc=list(bc), layout='C')
-                findings.append(dict(kind=which, key=f'{op}:C' if which == 'property' else f'{op}-model:C',
+                findings.append(dict(kind=which, key=(f'{op}:C' if which == 'property' else
+                                                      f'{op}-closed:C' if ref is spec else f'{op}-model:C'),
                                      detail=dict(got=got[r].tolist(), expected=ref[r].tolist(), rows=len(rows)), case=c))
-            if which == 'property' and len(rows):
+            if ref is spec and len(rows):
                 break
     seen, keep = set(), []
     for f in findings:
@@ -268,15 +368,21 @@ def _nbhd(rng, ndim, irregular_ok=True):
         for idx in np.ndindex(*B.shape):
             if sum(abs(i - 1) for i in idx) <= 2:
                 B[idx] = 1
-    elif r < 0.9:
+    elif r < 0.88:
         B = np.ones([rng.choice([1, 3, 5]) for _ in range(ndim)], int)
+    elif r < 0.93:     # all-ones box with even sides (star-shaped, not symmetric): C14_locmax_eq_spec_any_box
+        B = np.ones([rng.choice([1, 2, 2, 3, 4]) for _ in range(ndim)], int)
     elif irregular_ok:
         B = np.array([rng.random() < 0.5 for _ in range(int(np.prod([rng.choice([2, 3, 4])] * ndim)))], int)
         side = int(round(len(B) ** (1.0 / ndim)))
         B = B.reshape((side,) * ndim)
     else:
         B = np.ones((3,) * ndim, int)
-    return list(B.shape), [int(x) for x in B.ravel().tolist()]
+    bc = [int(x) for x in B.ravel().tolist()]
+    # the centre entry as the caller happens to pass it: set, cleared (C14_remove_centre_irrelevant)
+    if rng.random() < 0.4:
+        bc[_centre_index(list(B.shape))] = rng.choice([0, 1])
+    return list(B.shape), bc
 
 
 def _palette(rng, dtype):
@@ -291,8 +397,28 @@ def _palette(rng, dtype):
         vals = [float(dt.type(v)) for v in rng.sample(pool, k)]
         return vals
     lo, hi = gen.dt_range(dtype)
+    if hi >= 2 ** 53 and rng.random() < 0.4:
+        # values that differ only beyond double precision: a kernel comparing through `double` sees plateaus where there are
+        # strict extrema (2^53 .. 2^53+2, the top of the range, for int64 the bottom of the range and -2^53 - 1)
+        return _big_neighbours(rng, lo, hi, k)
     pool = sorted({lo, hi, lo + 1, hi - 1, 0 if lo <= 0 else lo, 1, 2, 3, 5, hi // 2, max(lo, -1), max(lo, -7)})
     return rng.sample(pool, min(k, len(pool)))
+
+
+def _big_neighbours(rng, lo, hi, k):
+    fams = [[2 ** 53, 2 ** 53 + 1, 2 ** 53 + 2, 2 ** 53 - 1], [hi, hi - 1, hi - 2, hi - 3]]
+    if hi > 2 ** 63:
+        fams.append([2 ** 63, 2 ** 63 - 1, 2 ** 63 + 1, 2 ** 63 + 2])
+    if lo < 0:
+        fams += [[lo, lo + 1, lo + 2, lo + 3], [-2 ** 53, -2 ** 53 - 1, -2 ** 53 - 2, -2 ** 53 + 1]]
+    fam = rng.choice(fams)
+    return rng.sample(fam, min(k, len(fam))) if k <= len(fam) else fam + rng.sample(rng.choice(fams), k - len(fam))
+
+
+def _magnitude(case):
+    if np.dtype(case['dtype']).kind not in 'iu':
+        return '-'
+    return '>=2^53' if any(abs(int(v)) >= 2 ** 53 for v in case['data']) else '<2^53'
 
 
 def _rand_extrema_case(rng):
@@ -308,8 +434,75 @@ def _rand_extrema_case(rng):
             data += [rng.choice(pal)] * rng.randint(1, 4)
         data = data[:n]
     bshape, bc = _nbhd(rng, len(shape))
-    return dict(op=rng.choice(LOC_OPS), dtype=dtype, shape=shape, data=data, bshape=bshape, bc=bc,
+    case = dict(op=rng.choice(LOC_OPS), dtype=dtype, shape=shape, data=data, bshape=bshape, bc=bc,
                 layout=rng.choice(gen.LAYOUTS))
+    _bc_variation(rng, case)
+    return case
+
+
+def _bc_variation(rng, case):
+    """Bc as callers pass it: non-zero entries other than 1 (the wrapper casts Bc to the dtype of the image; anything
+    non-zero is a member), a Fortran-ordered / strided Bc, sometimes a dirty caller-provided output buffer"""
+    r = rng.random()
+    if case['dtype'] != 'bool' and r < 0.12:
+        v = rng.choice([2, 3, 7])
+        case['bc'] = [v if x else 0 for x in case['bc']]
+    elif np.dtype(case['dtype']).kind != 'f' and r < 0.2:
+        # Bc in a wider dtype than the image: `np.asanyarray(Bc, f.dtype)` wraps (256 is 0 in uint8, -1 is 255, bool: != 0)
+        case['bcdtype'] = 'int64'
+        pool = [256, -1, 255, 65536, -256, 1, 2, 2 ** 32, 128]
+        case['bc'] = [rng.choice(pool) if x else 0 for x in case['bc']]
+    elif r < 0.3:
+        # Bc = None or an integer: get_structuring_elem builds the cross (translate_sizes: 4/8 in 2-D, 6 in 3-D)
+        ndim = len(case['shape'])
+        arg = rng.choice(['none', '0', '1', '2', '3', '4', '6', '8', '-1'])
+        case['bcarg'] = arg
+        v = 1 if arg == 'none' else int(arg)
+        v = {(2, 4): 1, (2, 8): 2, (3, 6): 1}.get((ndim, v), v)
+        case['bshape'] = [3] * ndim
+        case['bc'] = [1 if sum(abs(i - 1) for i in idx) <= v else 0 for idx in np.ndindex(*case['bshape'])]
+        case.pop('bclayout', None)
+        return
+    if rng.random() < 0.15:
+        case['bclayout'] = rng.choice(['F', 'strided', 'negstride', 'transposed'])
+    if rng.random() < 0.08:
+        case['_hist'] = 1
+
+
+def _rand_plateau_case(rng):
+    """plateaus by construction (1-3 D): a background, rectangles of constant value placed on the border, in corners and
+    inside; ties between separate plateaus; a plateau with one strictly better neighbour; +-inf for floats"""
+    dtype = rng.choice(['uint8', 'int16', 'int64', 'uint64', 'float32', 'float64', 'float64', 'bool'])
+    ndim = rng.choice([1, 2, 2, 2, 3])
+    shape = [rng.randint(1, 7 if ndim < 3 else 4) for _ in range(ndim)]
+    dt = np.dtype(dtype)
+    if dt == np.bool_:
+        levels = [0, 1]
+    elif dt.kind == 'f':
+        levels = sorted(rng.sample([float('-inf'), -2.5, -0.0, 0.0, 1.0, float(np.finfo(dt).max), float('inf')], 4))
+    else:
+        lo, hi = gen.dt_range(dtype)
+        if hi >= 2 ** 53 and rng.random() < 0.5:
+            levels = sorted(_big_neighbours(rng, lo, hi, 4))
+        else:
+            levels = sorted(rng.sample(sorted({lo, lo + 1, 0 if lo <= 0 else lo + 2, 5, 9, hi - 1, hi}), 4))
+    A = np.empty(shape, dtype=object)
+    A[...] = rng.choice(levels[:2] if len(levels) > 2 else levels)
+    for _ in range(rng.randint(1, 4)):
+        sl = []
+        for n in shape:
+            w = rng.randint(1, n)
+            where = rng.choice(['lo', 'hi', 'any'])
+            a = 0 if where == 'lo' else n - w if where == 'hi' else rng.randint(0, n - w)
+            sl.append(slice(a, a + w))
+        A[tuple(sl)] = rng.choice(levels)          # the same level may be drawn twice: tied plateaus
+    if rng.random() < 0.4:                          # one pixel that spoils (or crowns) a plateau
+        A[tuple(rng.randint(0, n - 1) for n in shape)] = rng.choice(levels)
+    bshape, bc = _nbhd(rng, ndim, irregular_ok=False)
+    case = dict(op=rng.choice(['regmax', 'regmin', 'regmax', 'regmin', 'locmax', 'locmin']), dtype=dtype, shape=shape,
+                data=A.ravel().tolist(), bshape=bshape, bc=bc, layout=rng.choice(gen.LAYOUTS), cls='plateau')
+    _bc_variation(rng, case)
+    return case
 
 
 def _rand_holes_case(rng):
@@ -324,9 +517,76 @@ def _rand_holes_case(rng):
         A[y0, x0:x1 + 1] = 1; A[y1, x0:x1 + 1] = 1; A[y0:y1 + 1, x0] = 1; A[y0:y1 + 1, x1] = 1
         A[y0 + 1:y1, x0 + 1:x1] = 0
         data = [int(x) for x in A.ravel().tolist()]
-    bshape, bc = _nbhd(rng, 2)
     dtype = rng.choice(['bool', 'bool', 'uint8', 'int32', 'float64'])
-    return dict(op='close_holes', dtype=dtype, shape=shape, data=data, bshape=bshape, bc=bc, layout=rng.choice(gen.LAYOUTS))
+    case = dict(op='close_holes', dtype=dtype, shape=shape, data=data, layout=rng.choice(gen.LAYOUTS))
+    r = rng.random()
+    if r < 0.25:
+        # Bc = None or an integer: get_structuring_elem builds the element (4 -> 1 -> cross, 8 -> 2 -> box, 0 -> centre only)
+        arg = rng.choice(['none', '0', '1', '2', '3', '4', '8'])
+        case['bcarg'] = arg
+        case['bshape'] = [3, 3]
+        case['bc'] = ([0, 0, 0, 0, 1, 0, 0, 0, 0] if arg == '0' else list(CROSS) if arg in ('none', '1', '4') else list(BOX))
+        case['cls'] = 'bc-int'
+    elif r < 0.5:
+        # any 2-D array: sides 1-5 (even sides, rows, columns), any entries; dtype and layout of Bc as the caller has them
+        bshape = [rng.randint(1, 5), rng.randint(1, 5)]
+        q = rng.choice([0.4, 0.7, 1.0])
+        case['bshape'] = bshape
+        case['bc'] = [1 if rng.random() < q else 0 for _ in range(bshape[0] * bshape[1])]
+        case['bcdtype'] = rng.choice(['bool', 'uint8', 'int64', 'float64'])
+        if case['bcdtype'] != 'bool' and rng.random() < 0.5:
+            v = rng.choice([2, 3, 200]) if case['bcdtype'] != 'float64' else rng.choice([0.5, -1.0, 2.0])
+            case['bc'] = [v if x else 0 for x in case['bc']]
+        case['bclayout'] = rng.choice(['C', 'C', 'F', 'strided', 'negstride', 'transposed'])
+        case['cls'] = 'bc-array'
+    else:
+        case['bshape'], case['bc'] = _nbhd(rng, 2)
+    if dtype != 'bool' and rng.random() < 0.4:
+        # "interpreted as a binary image": any non-zero value is foreground
+        v = dict(uint8=[2, 255], int32=[-1, 7], float64=[0.5, -3.0, float('inf')])[dtype]
+        case['data'] = [rng.choice(v) if x else 0 for x in case['data']]
+    return case
+
+
+def _rand_hitmiss_nd_case(rng):
+    """1-3 D, template sides 1-5 (even sides included), on purpose templates larger than the image on every subset of the
+    axes, templates equal to the image side; judged against the proved closed form (odd sides: the definition)"""
+    ndim = rng.choice([1, 2, 2, 3])
+    maxn = {1: 9, 2: 7, 3: 4}[ndim]
+    shape = [rng.randint(1, maxn) for _ in range(ndim)]
+    mode = rng.choice(['fit', 'fit', 'larger', 'equal', 'free'])
+    bshape = []
+    larger_axes = [rng.random() < 0.5 for _ in range(ndim)]
+    if mode == 'larger' and not any(larger_axes):
+        larger_axes[rng.randrange(ndim)] = True
+    for ax, n in enumerate(shape):
+        if mode == 'fit':
+            b = rng.randint(1, min(n, 5))
+        elif mode == 'larger':
+            b = rng.randint(n + 1, n + 3) if larger_axes[ax] else rng.randint(1, min(n, 5))
+        elif mode == 'equal':
+            b = n if larger_axes[ax] else rng.randint(1, min(n, 5))
+        else:
+            b = rng.randint(1, 5)
+        bshape.append(b)
+    n = int(np.prod(shape))
+    nb = int(np.prod(bshape))
+    p = rng.choice([0.2, 0.5, 0.8, 1.0])
+    data = [1 if rng.random() < p else 0 for _ in range(n)]
+    if all(b <= m for b, m in zip(bshape, shape)) and rng.random() < 0.6:   # cut the template out of the image
+        A = np.array(data).reshape(shape)
+        at = [rng.randint(0, m - b) for b, m in zip(bshape, shape)]
+        sub = A[tuple(slice(a, a + b) for a, b in zip(at, bshape))]
+        bc = [int(v) if rng.random() < 0.7 else 2 for v in sub.ravel().tolist()]
+    else:
+        bc = [rng.choice([2, 2, 2, 0, 1]) for _ in range(nb)]
+    dtype = rng.choice(['bool', 'uint8', 'uint8', 'int32', 'uint16', 'int64'])
+    bcdtype = rng.choice([dtype, 'uint8', 'int64']) if dtype != 'bool' else rng.choice(['uint8', 'int32'])
+    case = dict(op='hitmiss', dtype=dtype, bcdtype=bcdtype, shape=shape, data=data, bshape=bshape, bc=bc,
+                layout=rng.choice(gen.LAYOUTS), cls='hm-' + mode + ('-even' if any(b % 2 == 0 for b in bshape) else '-odd'))
+    if rng.random() < 0.2:
+        case['bclayout'] = rng.choice(['F', 'strided', 'negstride', 'transposed'])
+    return case
 
 
 def _rand_hitmiss_case(rng):
@@ -378,6 +638,87 @@ def _large_case(rng, which):
                 bshape=bshape, bc=bc, layout=layout, size='large')
 
 
+THRESHOLDS = [255, 256, 257, 32767, 32768, 32769, 65535, 65536, 65537]
+
+
+def _threshold_case(rng, which, N, gap=None):
+    """a plateau / background region / hole / row of N (+ a little) pixels, N around 2^8, 2^15, 2^16: a counter, flat index or
+    stack index narrowed to 8 or 16 bits passes every small case and fails here"""
+    layout = rng.choice(['C', 'C', 'F', 'readonly'])
+    if which in ('reg', 'loc'):
+        dtype = rng.choice(['uint8', 'int16', 'int32', 'float32', 'float64', 'uint16'])
+        form = rng.choice(['row', 'row2', 'col2', 'rect'])
+        if form == 'row':
+            shape = [N + rng.choice([0, 1, 2])]
+        elif form == 'row2':
+            shape = [1, N + rng.choice([0, 1, 2])]
+        elif form == 'col2':
+            shape = [N + rng.choice([0, 1, 2]), 1]
+        else:
+            h = rng.choice([2, 3, 255, 256, 257]) if N > 1000 else rng.choice([2, 3, 15, 16, 17])
+            shape = [h, -(-N // h) + rng.choice([0, 1])]
+            if rng.random() < 0.5:
+                shape = shape[::-1]
+        n = int(np.prod(shape))
+        if which == 'reg':
+            data = [1] * n                                   # one plateau of n (minus a few) pixels ...
+            op = rng.choice(['regmax', 'regmin'])
+            k = rng.choice([1, 1, 2, 4])                     # ... and a few distinct pixels (first / last / index N included);
+            for j in range(k):                               # the first one, at the far end, spoils the plateau: the scan must
+                if j == 0:                                   # reach it and the flood must unmark all n - k pixels
+                    data[rng.choice([n - 1, min(n - 1, N), n - 2])] = 2 if op == 'regmax' else 0
+                else:
+                    i = rng.choice([0, n - 1, min(n - 1, N - 1), rng.randrange(n)])
+                    if data[i] == 1:
+                        data[i] = rng.choice([0, 2])
+        else:
+            data = []
+            while len(data) < n:
+                data += [rng.choice([0, 1, 2])] * rng.choice([1, 1, 2, 300])
+            data = data[:n]
+            op = rng.choice(['locmax', 'locmin'])
+        ndim = len(shape)
+        bshape = [3] * ndim
+        if ndim == 1 or rng.random() < 0.5:
+            bc = [1 if sum(abs(i - 1) for i in idx) <= 1 else 0 for idx in np.ndindex(*bshape)]
+        else:
+            bc = [1] * (3 ** ndim)
+        return dict(op=op, dtype=dtype, shape=shape, data=data, bshape=bshape, bc=bc, layout=layout, size='threshold')
+    if which == 'holes':
+        # the image border is foreground, everything inside background: a hole of (h-2)(w-2) pixels that must be filled;
+        # with a gap in the border the flood enters and takes the same number of pixels (nothing is filled)
+        if rng.random() < 0.5:
+            h, w = 3, N + 2
+        else:
+            h = rng.choice([258, 257, 259]) if N > 1000 else rng.choice([18, 17, 10])
+            w = -(-N // (h - 2)) + 2
+        if rng.random() < 0.5:
+            h, w = w, h
+        A = np.zeros((h, w), int)
+        A[0, :] = 1; A[-1, :] = 1; A[:, 0] = 1; A[:, -1] = 1
+        if (rng.random() < 0.5) if gap is None else gap:
+            r = rng.random()
+            if r < 0.4:
+                A[h - 1, w - 2] = 0          # the last border pixels the seeding loop visits
+            elif r < 0.7:
+                A[rng.choice([0, h - 1]), rng.randint(1, w - 2)] = 0
+            else:
+                A[rng.randint(1, h - 2), rng.choice([0, w - 1])] = 0
+        for _ in range(rng.choice([0, 0, 3])):
+            A[rng.randint(1, h - 2), rng.randint(1, w - 2)] = 1
+        bshape, bc = rng.choice([([3, 3], CROSS), ([3, 3], BOX)])
+        return dict(op='close_holes', dtype='bool', shape=[h, w], data=[int(x) for x in A.ravel().tolist()], bshape=bshape,
+                    bc=list(bc), layout=layout, size='threshold')
+    # hitmiss on a long row
+    shape = rng.choice([[N + 2], [1, N + 2], [2, N + 1], [N + 1, 2]])
+    n = int(np.prod(shape))
+    data = [1 if rng.random() < 0.6 else 0 for _ in range(n)]
+    bshape = [rng.choice([1, 2, 3]) if m > 3 else 1 for m in shape]
+    bc = [rng.choice([1, 1, 0, 2]) for _ in range(int(np.prod(bshape)))]
+    return dict(op='hitmiss', dtype='uint8', bcdtype='uint8', shape=shape, data=data, bshape=bshape, bc=bc, layout=layout,
+                size='threshold')
+
+
 CROSS = [0, 1, 0, 1, 1, 1, 0, 1, 0]
 BOX = [1] * 9
 
@@ -403,6 +744,21 @@ def cases(rng, tier):
     for shp in shapes_small:
         for bsh in ([1, 3], [3, 1]):
             out.append(dict(block='hitmiss', shape=shp, bshape=bsh, bcs=[t for b, t in small_t if b == bsh]))
+    # round 4: even template sides, 1-D and 3-D, against the closed form (odd sides: the definition)
+    t22 = [_tern(i, 4) for i in range(81)]
+    for shp in shapes_small:
+        out.append(dict(block='hitmiss', shape=shp, bshape=[1, 2], bcs=[_tern(i, 2) for i in range(9)]))
+        out.append(dict(block='hitmiss', shape=shp, bshape=[2, 1], bcs=[_tern(i, 2) for i in range(9)]))
+        out.append(dict(block='hitmiss', shape=shp, bshape=[2, 2],
+                        bcs=t22 if tier == 'thorough' or shp in ([2, 2], [2, 3], [3, 3]) else rng.sample(t22, 12)))
+    for nlen in range(1, 9):
+        for b in (1, 2, 3, 4, 5):
+            ts = [_tern(i, b) for i in range(3 ** b)]
+            out.append(dict(block='hitmiss', shape=[nlen], bshape=[b], bcs=ts if tier == 'thorough' else rng.sample(ts, min(len(ts), 27))))
+    for shp, bsh in (([2, 2, 3], [1, 1, 3]), ([2, 2, 3], [2, 2, 2]), ([2, 3, 2], [1, 3, 1]), ([3, 2, 2], [2, 1, 2]), ([2, 2, 3], [1, 2, 3])):
+        nt = 3 ** int(np.prod(bsh))
+        ids = list(range(nt)) if (tier == 'thorough' and nt <= 729) else rng.sample(range(nt), min(nt, 10 if tier == 'quick' else 60))
+        out.append(dict(block='hitmiss', shape=shp, bshape=bsh, bcs=[_tern(i, int(np.prod(bsh))) for i in ids]))
     all33 = list(range(3 ** 9))
     if tier == 'thorough':
         step = 24
@@ -423,15 +779,31 @@ def cases(rng, tier):
         out.append(_rand_holes_case(rng))
     for _ in range(nrand[2]):
         out.append(_rand_hitmiss_case(rng))
+    for _ in range(nrand[2]):
+        out.append(_rand_hitmiss_nd_case(rng))
+    for _ in range(nrand[0] // 3):
+        out.append(_rand_plateau_case(rng))
     for i in range(dict(quick=12, thorough=90, search=30)[tier]):
         out.append(_large_case(rng, ('holes', 'reg', 'hitmiss')[i % 3]))
+    # size-threshold stream: quick one case per operation family (2^16 twice, the others drawn), thorough every threshold
+    kinds = ('reg', 'holes', 'loc', 'hitmiss')
+    if tier == 'quick':
+        # the flood users always at 2^16 (a hole that is filled and a region the flood enters through a gap), the others drawn
+        out.append(_threshold_case(rng, 'reg', rng.choice([65536, 65537])))
+        out.append(_threshold_case(rng, 'holes', rng.choice([65536, 65537]), gap=True))
+        out.append(_threshold_case(rng, 'holes', rng.choice([65535, 65536, 65537]), gap=False))
+        out.append(_threshold_case(rng, 'loc', rng.choice(THRESHOLDS)))
+        out.append(_threshold_case(rng, 'hitmiss', rng.choice([32767, 32768, 65535, 65536, 65537])))
+    else:
+        for i, N in enumerate(THRESHOLDS * (3 if tier == 'thorough' else 1)):
+            out.append(_threshold_case(rng, kinds[i % 4] if tier != 'thorough' else kinds[(i + i // 9) % 4], N))
     rng.shuffle(out)     # spread the heavy exhaustive blocks over the worker chunks (deterministic: same rng)
     return corpus + out
 
 
 def shrink(case):
-    if 'block' in case:
-        return
+    if 'block' in case or case.get('size') == 'threshold':
+        return      # a size-threshold witness is only a witness at its size
     shape, data = case['shape'], case['data']
     A = np.array(data, dtype=object).reshape(shape)
     for ax in range(len(shape)):
